@@ -460,6 +460,15 @@ class ProgGen:
                 t = ty["elem"]["t"]
                 return E(f"{start}{t}..{start + ty['n']}{t}", ["range", start, start + ty["n"], t], 0)
             es = [self.expr(ty["elem"], d - 1, pure) for _ in range(ty["n"])]
+            if "untyped" in self.features and is_int(ty["elem"]) and len(es) >= 2:
+                # numbers without a suffix among the elements: they take the type of an element that has one (also when the
+                # number comes FIRST), so at least one element keeps its type
+                lits = [i for i, e in enumerate(es) if isinstance(e.ast, list) and e.ast[0] == "int" and e.text == f"{e.ast[1]}{e.ast[2]}"]
+                keep = self.rng.choice(lits) if len(lits) == len(es) else None
+                for i in lits:
+                    if i != keep and self.rng.random() < 0.5:
+                        es[i] = E(str(es[i].ast[1]), es[i].ast)
+                        self.note("untyped-array-element")
             return E("[" + ", ".join(e.text for e in es) + "]", ["array", [e.ast for e in es]])
         if k == "tuple":
             es = [self.expr(t, d - 1, pure) for t in ty["ts"]]
